@@ -2,26 +2,19 @@ from props import *  # noqa: F401,F403
 
 # ------------------------------------------------------------------------------------------------
 rc_bin("c12_rc", ["harness/c12_sampling.cc"], lib=True)
-# Same sanitizer options as check's asan_env() plus a short allocation-stack context and a small
-# quarantine: rapidcheck's lazy recursion produces endless unique 30-frame malloc/free stacks, which
-# makes ASan's stack depot (and the 256 MB default quarantine) grow by 3-25 KB per case - gigabytes
-# per process at thorough budgets.  With these two settings a process stays near 100 MB and runs
-# almost twice as fast; detection is unchanged (only the depth of alloc/free stacks in reports).
-_ENV = {"ASAN_OPTIONS": "detect_leaks=1:abort_on_error=0:allocator_may_return_null=1:"
-                        "detect_stack_use_after_return=1:symbolize=1:handle_abort=0:"
-                        "malloc_context_size=6:quarantine_size_mb=32"}
 PROPS["C12"] = dict(
-    level_text="Metamorphic and reference-checked property tests over generated (ratio pair, trace id set) cases whose "
-               "ids are constructed around ratio*2^64, over generated parent contexts with a call-counting delegate, and "
-               "through a real sdk Tracer with a planned id generator (rapidcheck, ASan/UBSan): every explored case "
-               "satisfied the constants, monotonicity in ratio and id, independence and the ParentBased rules. "
-               "Exploration is the right level: the domain (2^64 ids x all doubles x all parents) cannot be enumerated, "
-               "the risk sits at constructible floating-point boundaries, and the oracles are cheap.",
+    level_text="Metamorphic and reference-checked property tests (rapidcheck, ASan/UBSan) over generated (ratio pair, "
+               "trace id set) cases whose ids are CONSTRUCTED around ratio*2^64 (+-40, +-4096, +-2^k, 65-point sweeps, "
+               "top/bottom of the id space), over generated parent contexts with a call-counting delegate, and through a "
+               "real sdk Tracer with a planned id generator: every explored case satisfied the constants, monotonicity in "
+               "ratio and in the id, independence, and the ParentBased rules. Exploration is the right level: the domain "
+               "(2^64 ids x all doubles x all parents) cannot be enumerated, the risk sits at constructible floating-point "
+               "boundaries, and the oracles are cheap.",
     technique="metamorphic PBT (monotone in ratio / in id, independence of name, kind, attributes, links, parent, instance, "
               "call history) + exact integer reference threshold with a tolerance band + call-counting delegate model + "
               "end-to-end Tracer check; rapidcheck",
-    rule="Cases are choice streams decoded into ratio pairs with boundary-constructed trace ids, ParentBased call "
-         "sequences, constant-sampler call sequences and Tracer span sequences.",
+    rule="Cases are choice streams decoded into ratio pairs with boundary-constructed trace ids (sets and sweeps), "
+         "ParentBased call sequences, constant-sampler call sequences and Tracer span sequences.",
     assumptions=[
         "the ratio sampler maps the FIRST 8 bytes of the trace id, read in host byte order, onto [0,2^64) (anchor: "
         "memcpy into a uint64); the reference demands 'sampled' only when that value is more than 8 + 2^-50*max(x,T) "
@@ -38,10 +31,10 @@ PROPS["C12"] = dict(
         SC_NOTE,
     ],
     runs=[
-        run("ratio", "c12_rc", "ratio_decision", "rc", dict(procs=5, cases=120000), dict(procs=16, cases=1500000), env=_ENV),
-        run("sweep", "c12_rc", "ratio_sweep", "rc", dict(procs=2, cases=100000), dict(procs=6, cases=1000000), env=_ENV),
-        run("parent", "c12_rc", "parent_based", "rc", dict(procs=3, cases=50000), dict(procs=8, cases=600000), env=_ENV),
-        run("constant", "c12_rc", "constant", "rc", dict(procs=1, cases=30000), dict(procs=2, cases=400000), env=_ENV),
-        run("tracer", "c12_rc", "tracer_flag", "rc", dict(procs=4, cases=40000), dict(procs=8, cases=500000), env=_ENV),
+        run("ratio", "c12_rc", "ratio_decision", "rc", dict(procs=5, cases=150000), dict(procs=16, cases=1500000)),
+        run("sweep", "c12_rc", "ratio_sweep", "rc", dict(procs=2, cases=100000), dict(procs=6, cases=1000000)),
+        run("parent", "c12_rc", "parent_based", "rc", dict(procs=3, cases=60000), dict(procs=8, cases=600000)),
+        run("constant", "c12_rc", "constant", "rc", dict(procs=1, cases=30000), dict(procs=2, cases=400000)),
+        run("tracer", "c12_rc", "tracer_flag", "rc", dict(procs=4, cases=50000), dict(procs=8, cases=500000)),
     ],
 )
